@@ -11,12 +11,12 @@ namespace DV.Node
 theorem C08_missing (s : St) (cid : Nat) (m : AMsg) (info : MsgInfo)
     (hr : m.isRequest = true) (hv : info.validateRaises = false) (hm : info.missing ≠ []) :
     receiveMessage s cid m info =
-      (let s1 := recordOrigin s m info
+      (let s1 := recordOrigin s cid m info
        let r := sendMessage s1 cid (generateAnswer s1 m info (some 5005) info.missing) info.ansTyped
        if r.2 then r.1 else crashReader r.1 cid "TypeError") ∧
-    (generateAnswer (recordOrigin s m info) m info (some 5005) info.missing).rc =
+    (generateAnswer (recordOrigin s cid m info) m info (some 5005) info.missing).rc =
       (if info.ansTyped then some 5005 else none) ∧
-    (generateAnswer (recordOrigin s m info) m info (some 5005) info.missing).fa =
+    (generateAnswer (recordOrigin s cid m info) m info (some 5005) info.missing).fa =
       (if info.ansTyped && info.ansHasFA then info.missing else []) := by
   have hne : info.missing.isEmpty = false := by
     cases h : info.missing with
